@@ -12,6 +12,11 @@ Theorem history_written_per_successful_change :
   history_after_transition = true /\ history_uses_returned_record = true /\
   history_names_requester = true /\ registration_writes_history = true.
 Proof. exact (conj eq_refl (conj eq_refl (conj eq_refl eq_refl))). Qed.
+
+(* "once nothing is pending" is what the flush establishes: it joins, without a time limit, every writer that was ever tracked,
+   and the tracking list only grows (generated from add_history / add_histories / wait_for_*_async_operations) *)
+Theorem flush_waits_for_every_writer : history_writers_stay_tracked = true.
+Proof. exact eq_refl. Qed.
 Print Assumptions history_written_per_successful_change.
 
 (* Once pending writes are flushed — whatever the interleaving of actors and writers, however late and
